@@ -470,7 +470,15 @@ def check_stable(pid, tier, seed):
                           "replay_job": {"conc_scenario": v.get("scenario_obj")}})
     eng.traces += nscen
     eng.evals += nscen
-    return verdict(eng, pid, "model_checking", RULE_STABLE, extra_cov={"concurrent_client_scenarios": nscen, "concurrent_stage": cst})
+    vs2, nscen2 = checks_conc.c08_sched_stage(seed, tier, cst)
+    for v in vs2:
+        eng.viols.append({"line": 0, "clause": v["clause"], "job": v["scenario"], "fork": None, "family": "conc", "tag": None,
+                          "inflight": "none", "ncrash": 0, "event": v["event"], "props": ["C08"],
+                          "replay_job": {"conc_scenario": v.get("scenario_obj")}})
+    eng.traces += nscen2
+    eng.evals += nscen2
+    return verdict(eng, pid, "model_checking", RULE_STABLE,
+                   extra_cov={"concurrent_client_scenarios": nscen, "forced_stable_interleavings": nscen2, "concurrent_stage": cst})
 
 
 # ---------------------------------------------------------------------------
